@@ -113,6 +113,12 @@ func (c *Ctx) oblige(s *State, kind, label, goal, human string, pos token.Pos) {
 		sb.WriteByte('\n')
 	}
 	skGoal, skDecls := skolemize(goal)
+	if c.curBatch != "" {
+		o.Batch = fmt.Sprintf("%d/%s", s.pathID, c.curBatch)
+		o.NegDecls = skDecls
+		o.NegTerm = "(not " + skGoal + ")"
+		c.batchMembers = append(c.batchMembers, o)
+	}
 	for _, d := range skDecls {
 		sb.WriteString(d)
 		sb.WriteByte('\n')
@@ -123,7 +129,39 @@ func (c *Ctx) oblige(s *State, kind, label, goal, human string, pos token.Pos) {
 	o.Fields = c.entryFieldVars()
 	c.obls = append(c.obls, o)
 	// assume the goal afterwards
+	n0 := len(s.cmds)
 	c.assume(s, goal)
+	if c.curBatch != "" && len(s.cmds) == n0+1 {
+		c.batchGoalIdx = append(c.batchGoalIdx, n0)
+	}
+}
+
+// closeBatch gives every member of the current batch the common prefix: all commands of the path at this point except
+// the goals that were assumed after being raised inside the batch.
+func (c *Ctx) closeBatch(s *State) {
+	if len(c.batchMembers) >= 2 {
+		skip := map[int]bool{}
+		for _, i := range c.batchGoalIdx {
+			skip[i] = true
+		}
+		var sb strings.Builder
+		for i, cmd := range s.cmds {
+			if skip[i] {
+				continue
+			}
+			sb.WriteString(cmd)
+			sb.WriteByte('\n')
+		}
+		p := sb.String()
+		for _, o := range c.batchMembers {
+			o.BatchPrefix = p
+		}
+	} else {
+		for _, o := range c.batchMembers {
+			o.Batch = ""
+		}
+	}
+	c.curBatch, c.batchMembers, c.batchGoalIdx = "", nil, nil
 }
 
 func shortPath(p string) string {
@@ -713,6 +751,7 @@ func (c *Ctx) atReturn(s *State, fr *Frame, res Val) {
 	}
 	env.old = map[string]string{}
 	env.oldIsEntry = true
+	env.localsInPost = true
 	c.bindResults(env, fr.fn, res)
 	// ghost updates
 	for _, u := range c.fc.Updates {
@@ -725,6 +764,9 @@ func (c *Ctx) atReturn(s *State, fr *Frame, res Val) {
 	if pos == token.NoPos {
 		pos = fr.fn.Pos()
 	}
+	c.batchSeq++
+	c.curBatch, c.batchMembers, c.batchGoalIdx = fmt.Sprintf("ret%d", c.batchSeq), nil, nil
+	defer c.closeBatch(s)
 	for i, e := range c.fc.Ensures {
 		label := e.Label
 		if label == "" {
